@@ -33,6 +33,38 @@ func (p *Prog) pathKeyAt(a *ssa.Alloc, path []string, at ssa.Instruction) string
 // equal to it).
 func limitSweepTwins(p *Prog, r *Report, skip map[*ssa.Function]bool) {
 	r.Rule("R11.10", "automatic fill: the limit-bid total drops by what the depositor's record drops by", 2)
+	// helpers that take an amount off the total for their caller: BidValue = BidValue.Sub(param)
+	reducers := map[*ssa.Function]int{}
+	for _, fn := range p.Funcs {
+		if moduleOf(fn) != "auctionsV2" || skip[fn] || p.isAuxFn(fn) || len(fn.Blocks) == 0 {
+			continue
+		}
+		hasRec := false
+		idx := -1
+		for _, b := range fn.Blocks {
+			for _, in := range b.Instrs {
+				if a, ok := in.(*ssa.Alloc); ok && namedTypeName(derefAll(a.Type())) == "LimitOrderBid" {
+					hasRec = true
+				}
+				st, ok := in.(*ssa.Store)
+				if !ok {
+					continue
+				}
+				base, path := addrBase(st.Addr)
+				if namedTypeName(derefAll(base.Type())) != "LimitBidProtocolData" || len(path) == 0 || path[0] != "BidValue" {
+					continue
+				}
+				if op, _, x, ok := addSubOf(st.Val); ok && op == "Sub" {
+					if pr, isP := x.(*ssa.Parameter); isP {
+						idx = paramIndex(pr)
+					}
+				}
+			}
+		}
+		if !hasRec && idx >= 0 {
+			reducers[fn] = idx
+		}
+	}
 	for _, fn := range p.Funcs {
 		if moduleOf(fn) != "auctionsV2" || skip[fn] || p.isAuxFn(fn) || len(fn.Blocks) == 0 {
 			continue
@@ -42,13 +74,26 @@ func limitSweepTwins(p *Prog, r *Report, skip map[*ssa.Function]bool) {
 			alloc *ssa.Alloc
 			path  []string
 		}
+		type totalSite struct {
+			at ssa.Instruction
+			x  ssa.Value
+		}
 		var recs []recStore
-		var totals []*ssa.Store
+		var totals []totalSite
 		var recAllocs []*ssa.Alloc
 		for _, b := range fn.Blocks {
 			for _, in := range b.Instrs {
 				if a, ok := in.(*ssa.Alloc); ok && namedTypeName(derefAll(a.Type())) == "LimitOrderBid" {
 					recAllocs = append(recAllocs, a)
+				}
+				if c, ok := in.(ssa.CallInstruction); ok {
+					if sc := c.Common().StaticCallee(); sc != nil {
+						if idx, isRed := reducers[sc]; isRed {
+							if args := c.Common().Args; idx < len(args) {
+								totals = append(totals, totalSite{in, args[idx]})
+							}
+						}
+					}
 				}
 				st, ok := in.(*ssa.Store)
 				if !ok {
@@ -62,7 +107,9 @@ func limitSweepTwins(p *Prog, r *Report, skip map[*ssa.Function]bool) {
 					}
 				}
 				if tn == "LimitBidProtocolData" && len(path) > 0 && path[0] == "BidValue" {
-					totals = append(totals, st)
+					if op, _, x, ok := addSubOf(st.Val); ok && op == "Sub" {
+						totals = append(totals, totalSite{st, x})
+					}
 				}
 			}
 		}
@@ -70,11 +117,8 @@ func limitSweepTwins(p *Prog, r *Report, skip map[*ssa.Function]bool) {
 			continue
 		}
 		amtPath := []string{"DebtToken", "Amount"}
-		for i, ts := range totals {
-			op, _, x, ok := addSubOf(ts.Val)
-			if !ok || op != "Sub" {
-				continue
-			}
+		for i, tsite := range totals {
+			ts, x := tsite.at, tsite.x
 			r.Instance("R11.10")
 			r.FuncsSeen[fname(fn)] = true
 			construct := fmt.Sprintf("%s total reduction #%d", fname(fn), i+1)
